@@ -238,16 +238,16 @@ def r18_2(ctx, rc):
             rc.ok({'explicit_returns_only': True}, key=key)
         # the last resort of the chain rejects
         key = name + ' final else rejects'
-        last = F.node.body[-1]
-        while isinstance(last, ast.If) and last.orelse:
-            last = last.orelse[-1]
-        if isinstance(last, ast.Raise):
+        from ..astpaths import cond_paths
+        finals = [st for conds, st in cond_paths(F.node.body)
+                  if len(conds) >= 2 and all(not pol for _, pol in conds)]
+        if finals and all(isinstance(x, ast.Raise) for x in finals):
             rc.ok({'final': 'raise'}, key=key)
         else:
             rc.violation('final-else | ' + name,
                          'the final alternative of %s does not raise '
                          'TypeError (unknown classes pass through)' % name,
-                         ctx.prog.loc(F, last), key=key)
+                         ctx.prog.loc(F, F.node), key=key)
 
 
 def _bool_atom(lab):
@@ -347,52 +347,53 @@ def _const_tuple(e):
 def r18_4(ctx, rc):
     F = _util(ctx, 'to_hashable')
     enc = {}
-    # walk the if/elif chain on the class of the argument
-    st = None
-    for s in F.node.body:
-        if isinstance(s, ast.If):
-            st = s
-    if st is None:
-        raise AnalysisError('dispatch of to_hashable not found')
-    while isinstance(st, ast.If):
-        t = st.test
+    from ..astpaths import cond_paths, class_eq_fact, isinstance_fact
+    bool_rets = []
+    for conds, st in cond_paths(F.node.body):
         cname = None
-        if isinstance(t, ast.Compare) and isinstance(
-                t.comparators[0], ast.Name):
-            cname = t.comparators[0].id
-        elif isinstance(t, ast.Call) and len(t.args) == 2 and isinstance(
-                t.args[1], ast.Name):
-            cname = t.args[1].id
-        if cname in ('list', 'tuple'):
-            for n in ast.walk(ast.Module(body=st.body, type_ignores=[])):
-                if isinstance(n, ast.Return):
-                    v = n.value
-                    if isinstance(v, ast.BinOp) and isinstance(
-                            v.op, ast.Add):
-                        enc['list'] = _const_tuple(v.left)
-                    elif isinstance(v, ast.Call) and v.args:
-                        enc['list'] = None
-        elif cname == 'dict':
-            init = None
-            for s2 in st.body:
-                if isinstance(s2, ast.Assign) and isinstance(
-                        s2.value, (ast.List, ast.Tuple)):
-                    try:
-                        init = tuple(ast.literal_eval(s2.value))
-                    except Exception:
-                        init = None
-            enc['dict'] = init
-        elif cname == 'bool':
-            rets = [n.value for n in ast.walk(
-                ast.Module(body=st.body, type_ignores=[]))
-                if isinstance(n, ast.Return)]
-            vals = [_const_tuple(r) for r in rets]
-            if len(vals) == 2:
-                enc['true'], enc['false'] = vals
-        st = st.orelse[0] if st.orelse and isinstance(
-            st.orelse[0], ast.If) else None
+        for t, pol in conds:
+            ce = class_eq_fact(t)
+            if ce is not None and pol != ce[2] and ce[1] in (
+                    'list', 'tuple', 'dict', 'bool'):
+                cname = ce[1]
+            fi = isinstance_fact(t)
+            if fi is not None and pol:
+                for c in fi[1]:
+                    if c in ('list', 'tuple', 'dict', 'bool'):
+                        cname = c
+        if cname in ('list', 'tuple') and isinstance(st, ast.Return):
+            v = st.value
+            if isinstance(v, ast.BinOp) and isinstance(v.op, ast.Add):
+                enc['list'] = _const_tuple(v.left)
+            elif isinstance(v, ast.Call) and v.args:
+                enc['list'] = None
+        elif cname == 'dict' and isinstance(st, ast.Assign) and isinstance(
+                st.value, (ast.List, ast.Tuple)):
+            try:
+                enc['dict'] = tuple(ast.literal_eval(st.value))
+            except Exception:
+                enc['dict'] = None
+        elif cname == 'bool' and isinstance(st, ast.Return):
+            # (value-test polarity, encoding)
+            truth = [pol for t, pol in conds if isinstance(t, ast.Name)]
+            bool_rets.append((truth[-1] if truth else None,
+                              _const_tuple(st.value)))
+    if len(bool_rets) == 2:
+        d = dict(bool_rets)
+        if set(d) == {True, False}:
+            enc['true'], enc['false'] = d[True], d[False]
+        else:
+            enc['true'], enc['false'] = bool_rets[0][1], bool_rets[1][1]
     need = ('list', 'dict', 'true', 'false')
     if any(k not in enc for k in need):
+        missing = sorted(k for k in need if k not in enc)
+        if set(missing) <= {'true', 'false'} and 'list' in enc:
+            rc.violation(
+                'hashable-tags | to_hashable',
+                'the hashable form has no distinct encoding for booleans '
+                '(True and 1 get the same key)', ctx.prog.loc(F, F.node),
+                key='tags of the hashable form')
+            return
         raise AnalysisError('encodings of to_hashable not recognised: %s'
                             % sorted(enc))
     problems = []
